@@ -22,6 +22,7 @@ import (
 	"unsafe"
 
 	"gorm.io/gorm"
+	"gorm.io/gorm/clause"
 	"pgregory.net/rapid"
 
 	"verif/internal/evid"
@@ -50,6 +51,10 @@ type Parent struct {
 	MentorID *uint
 	Mentor   *Child `gorm:"foreignKey:MentorID"`
 	Items    []Item `gorm:"foreignKey:ParentID"`
+	// a has-one held by value and a many2many of pointers: the remaining relation kinds and
+	// the remaining pointer/value arms of callbacks/associations.go
+	Desk    Child    `gorm:"foreignKey:OwnerID"`
+	Friends []*Child `gorm:"many2many:parent_friends"`
 }
 
 // Item: has-many child of Parent with the composite primary key (parent_id, line_no).
@@ -95,7 +100,8 @@ type Child struct {
 	ID       uint `gorm:"primaryKey"`
 	Tag      string
 	Name     string
-	ParentID *uint
+	ParentID *uint // has-many foreign key (Parent.Kids, Plain.Kids)
+	OwnerID  *uint // has-one foreign key (Parent.Desk)
 }
 
 func (Parent) TableName() string { return "parents" }
@@ -201,10 +207,15 @@ func (m *Mixed) AfterUpdate(tx *gorm.DB) error  { return m.fire(tx, "Mixed", hAf
 // Plain has no hook at all; its has-many children (Child) have all of them.
 type Plain struct {
 	Flat
-	Kids []Child `gorm:"foreignKey:ParentID"`
+	Kids []*Child `gorm:"foreignKey:ParentID"` // a has-many of pointers (Parent.Kids holds values)
 }
 
-func (p *Plain) setKids(k []Child) { p.Kids = k }
+func (p *Plain) setKids(k []Child) {
+	p.Kids = nil
+	for i := range k {
+		p.Kids = append(p.Kids, &k[i])
+	}
+}
 
 type kidHolder interface{ setKids([]Child) }
 
@@ -257,10 +268,11 @@ type kit struct {
 	table      string
 	hooks      map[string]bool // method set of *T: the hooks gorm considers applicable
 	valueHooks map[string]bool // method set of T: hooks declared on the value (they see a copy)
-	hasBoss    bool
+	hasBoss    bool            // Parent: also the has-one Desk and the many2many Friends
 	hasKids    bool
 	build      func(c *Case) *memory
 	updateWith func(note string, age int, name string) interface{} // struct argument of Updates
+	zero       func() interface{}                                  // a fresh zero value pointer (Model(..) of map creates)
 }
 
 type flatPtr[T any] interface {
@@ -292,9 +304,13 @@ func makeKit[T any, PT flatPtr[T]](name, table string) *kit {
 		*PT(&v).flat() = Flat{Note: note, Age: age, Name: name}
 		return v
 	}
+	k.zero = func() interface{} { return PT(new(T)) }
 	k.build = func(c *Case) *memory {
 		m := &memory{ptrs: map[string]uintptr{}}
 		switch c.Op {
+		case opPluck:
+			m.arg = PT(new(T))
+			return m
 		case opFind, opFirst:
 			switch c.Shape {
 			case shPtr:
@@ -326,7 +342,7 @@ func makeKit[T any, PT flatPtr[T]](name, table string) *kit {
 		}
 		n := len(c.Recs)
 		switch c.Shape {
-		case shPtr, shCond:
+		case shPtr, shCond, shDest:
 			p := PT(new(T))
 			if c.Shape == shCond {
 				p.flat().Tag = "cond"
@@ -346,6 +362,16 @@ func makeKit[T any, PT flatPtr[T]](name, table string) *kit {
 			} else {
 				m.arg = sl
 			}
+		case shPtrArray:
+			var arr [2]T
+			for i, r := range c.Recs {
+				fill(PT(&arr[i]), r, m)
+			}
+			parr := &arr
+			for i := range c.Recs {
+				m.recs = append(m.recs, ref(PT(&parr[i])))
+			}
+			m.arg = parr
 		case shPtrPSlice, shPSlice:
 			sl := make([]*T, n)
 			for i, r := range c.Recs {
@@ -371,7 +397,7 @@ var modelNames = []string{"Parent", "SaveOnly", "AfterSaveOnly", "CreateOnly", "
 
 func init() {
 	kits["Parent"] = &kit{name: "Parent", table: "parents", hooks: hookSetOf(&Parent{}), valueHooks: hookSetOf(Parent{}),
-		hasBoss: true, hasKids: true, build: buildParentMem,
+		hasBoss: true, hasKids: true, build: buildParentMem, zero: func() interface{} { return &Parent{} },
 		updateWith: func(note string, age int, name string) interface{} { return Parent{Note: note, Age: age, Name: name} }}
 	kits["SaveOnly"] = makeKit[SaveOnly]("SaveOnly", "flats")
 	kits["AfterSaveOnly"] = makeKit[AfterSaveOnly]("AfterSaveOnly", "flats")
@@ -485,14 +511,18 @@ type RecSpec struct {
 	Boss *KidSpec
 	Kids []KidSpec
 	// Parent only: second belongs-to, composite-key has-many
-	Mentor *KidSpec
-	Items  []KidSpec
+	Mentor  *KidSpec
+	Items   []KidSpec
+	Desk    *KidSpec  // has-one
+	Friends []KidSpec // many2many
 }
 
 type SeedRow struct {
-	ID   uint
-	Boss bool
-	Kids int
+	ID      uint
+	Boss    bool
+	Kids    int
+	Desk    bool
+	Friends int
 }
 
 const (
@@ -506,6 +536,7 @@ const (
 	opDelete        = "delete"
 	opFind          = "find"
 	opFirst         = "first"
+	opPluck         = "pluck" // Pluck / Count: query pipeline without a record destination
 )
 
 const (
@@ -514,10 +545,19 @@ const (
 	shPtrPSlice = "&[]*T"
 	shSlice     = "[]T"
 	shPSlice    = "[]*T"
-	shCond      = "cond" // Delete(&T{}, "id IN ?", ids)
+	shCond      = "cond" // Delete(&T{}, "id IN ?", ids); Model(&T{}).Where("id IN ?", ids).Updates(..)
+	shDest      = "dest" // db.Updates(&T{ID: .., Note: ..}): the updating value is the model
+	shPtrArray  = "&[2]T"
+	shMap       = "map"    // Model(&T{}).Create(map[string]interface{}{..}): documented to run no hooks
+	shMaps      = "&[]map" // Model(&T{}).Create(&[]map[string]interface{}{..})
 )
 
 type Case struct {
+	Via         string // find: "" | "batches" (FindInBatches); first: "" | "take" | "last" | "firstorinit" | "firstorcreate"; pluck: "pluck" | "count"
+	CondTag     string // FirstOrInit / FirstOrCreate: the condition is map{"tag": CondTag}
+	CondForm    string // delete / update by condition: "where" (inline or chained Where) | "pk" (primary keys as inline argument) | "chain"
+	Returning   bool   // Clauses(clause.Returning{}) on update / delete of a struct
+	Conflict    string // create: "" | "nothing" | "updateall": Clauses(clause.OnConflict{...})
 	PresetLines bool   // items come with their line number already set (always when no hook runs)
 	Model       string // top-level model type ("" = Parent)
 	Audit       bool   // every hook invocation also writes a row into audits through its handle
@@ -530,10 +570,16 @@ type Case struct {
 	Form        string    // updates / updatecolumns: "struct" | "map"
 	NewNote     string    // value written by the update operations
 	CallerName  string    // update operations: the caller also writes the name column ("" | "field": key/field Name | "column": key name)
-	DelKids     bool      // delete: Select("Kids") - the has-many children are deleted by a nested Delete with its own hooks
+	DelSel      string    // delete: Select("Kids" | "Desk" | "Friends") - has-many / has-one children are deleted by a nested Delete with its own hooks, many2many links by a hook-less one
 	Preload     []string  // find / first
 	SkipHooks   bool
-	InTx        bool   // run inside a caller transaction (Begin ... Commit/Rollback)
+	Tx          string // caller transaction: "" | "begin" (Begin..Commit/Rollback) | "closure" (db.Transaction) | "nested" (Transaction inside Transaction: save point)
+	SkipDefTx   string // "" | "session" | "config": SkipDefaultTransaction
+	Prepare     string // "" | "session" | "config": PrepareStmt
+	NoReturning bool   // dialector without RETURNING support
+	BatchVia    string // create: "" | "session" (Session{CreateBatchSize}) - the documented other way into CreateInBatches
+	FullSave    bool   // Session{FullSaveAssociations}
+	NoNestedTx  bool   // Session{DisableNestedTransaction}
 	Set         string // "" | "direct" | "setcolumn": what the setter before-hook does to Name
 	SetIn       string // hBeforeSave | "specific" (BeforeCreate / BeforeUpdate)
 	Probe       string // "exec" | "raw"
@@ -555,12 +601,33 @@ func (r RecSpec) String() string {
 	if len(r.Items) > 0 {
 		s += fmt.Sprintf("+%ditems", len(r.Items))
 	}
+	if r.Desk != nil {
+		s += "+desk"
+	}
+	if len(r.Friends) > 0 {
+		s += fmt.Sprintf("+%dfriends", len(r.Friends))
+	}
 	return s
 }
 
 func (c Case) String() string {
 	var b strings.Builder
 	fmt.Fprintf(&b, "%s seed=%v %s %s", c.kit().name, c.Seed, c.Op, c.Shape)
+	if c.Via != "" {
+		b.WriteString(" via=" + c.Via)
+	}
+	if c.CondTag != "" {
+		b.WriteString(" cond-tag=" + c.CondTag)
+	}
+	if c.CondForm != "" {
+		b.WriteString(" cond-form=" + c.CondForm)
+	}
+	if c.Returning {
+		b.WriteString(" Returning")
+	}
+	if c.Conflict != "" {
+		b.WriteString(" OnConflict=" + c.Conflict)
+	}
 	if c.Audit {
 		b.WriteString(" hooks-write-audits")
 	}
@@ -585,14 +652,32 @@ func (c Case) String() string {
 	if c.CallerName != "" {
 		fmt.Fprintf(&b, " caller-sets-name-by-%s", c.CallerName)
 	}
-	if c.DelKids {
-		b.WriteString(" Select(Kids)")
+	if c.DelSel != "" {
+		b.WriteString(" Select(" + c.DelSel + ")")
 	}
 	if c.SkipHooks {
 		b.WriteString(" SkipHooks")
 	}
-	if c.InTx {
-		b.WriteString(" in-caller-tx")
+	if c.Tx != "" {
+		b.WriteString(" in-caller-tx:" + c.Tx)
+	}
+	if c.SkipDefTx != "" {
+		b.WriteString(" SkipDefaultTransaction@" + c.SkipDefTx)
+	}
+	if c.Prepare != "" {
+		b.WriteString(" PrepareStmt@" + c.Prepare)
+	}
+	if c.NoReturning {
+		b.WriteString(" no-returning")
+	}
+	if c.BatchVia != "" {
+		fmt.Fprintf(&b, " CreateBatchSize=%d", c.Batch)
+	}
+	if c.FullSave {
+		b.WriteString(" FullSaveAssociations")
+	}
+	if c.NoNestedTx {
+		b.WriteString(" DisableNestedTransaction")
 	}
 	if c.Set != "" {
 		fmt.Fprintf(&b, " set=%s@%s", c.Set, c.SetIn)
@@ -600,6 +685,11 @@ func (c Case) String() string {
 	fmt.Fprintf(&b, " probe=%s", c.Probe)
 	return b.String()
 }
+
+func (c *Case) inTx() bool { return c.Tx != "" }
+
+// rollsBack: a failing hook must leave the database unchanged (the operation has a transaction to roll back).
+func (c *Case) rollsBack() bool { return c.SkipDefTx == "" || c.inTx() }
 
 func (c *Case) isUpdateOp() bool {
 	switch c.Op {
@@ -622,7 +712,7 @@ func (c *Case) setValue(tag string) string {
 
 // hooksRun: the operation dispatches hooks at all.
 func (c *Case) hooksRun() bool {
-	return !c.SkipHooks && c.Op != opUpdateColumn && c.Op != opUpdateColumns
+	return !c.SkipHooks && c.Op != opUpdateColumn && c.Op != opUpdateColumns && c.Shape != shMap && c.Shape != shMaps && c.Op != opPluck
 }
 
 // ---- seeded database ----------------------------------------------------------------------------
@@ -632,6 +722,7 @@ var ddl []string
 type seedContent struct {
 	parents  []Parent // without associations
 	children []Child
+	joins    [][2]uint // parent_friends rows (parent_id, child_id)
 }
 
 func materialize(c *Case) seedContent {
@@ -651,13 +742,24 @@ func materialize(c *Case) seedContent {
 			pid := s.ID
 			sc.children = append(sc.children, Child{ID: cid, Tag: fmt.Sprintf("s%d.k%d", s.ID, j), Name: "kid", ParentID: &pid})
 		}
+		if s.Desk && k.hasBoss {
+			cid++
+			pid := s.ID
+			sc.children = append(sc.children, Child{ID: cid, Tag: fmt.Sprintf("s%d.desk", s.ID), Name: "desk", OwnerID: &pid})
+		}
+		for j := 0; j < s.Friends && k.hasBoss; j++ {
+			cid++
+			sc.children = append(sc.children, Child{ID: cid, Tag: fmt.Sprintf("s%d.f%d", s.ID, j), Name: "friend"})
+			sc.joins = append(sc.joins, [2]uint{s.ID, cid})
+		}
 		sc.parents = append(sc.parents, p)
 	}
 	return sc
 }
 
 func openDB(c *Case) *testdb.DB {
-	d := testdb.Open(testdb.Options{Config: gorm.Config{DisableForeignKeyConstraintWhenMigrating: true}})
+	d := testdb.Open(testdb.Options{NoReturning: c.NoReturning, Config: gorm.Config{DisableForeignKeyConstraintWhenMigrating: true,
+		SkipDefaultTransaction: c.SkipDefTx == "config", PrepareStmt: c.Prepare == "config"}})
 	if ddl == nil {
 		if err := d.AutoMigrate(&Parent{}, &Child{}, &Item{}, &SaveOnly{}, &Plain{}); err != nil {
 			panic("harness: migrate: " + err.Error())
@@ -679,7 +781,12 @@ func openDB(c *Case) *testdb.DB {
 	}
 	sc := materialize(c)
 	for _, ch := range sc.children {
-		if err := d.Exec("INSERT INTO children (id, tag, name, parent_id) VALUES (?,?,?,?)", ch.ID, ch.Tag, ch.Name, ch.ParentID).Error; err != nil {
+		if err := d.Exec("INSERT INTO children (id, tag, name, parent_id, owner_id) VALUES (?,?,?,?,?)", ch.ID, ch.Tag, ch.Name, ch.ParentID, ch.OwnerID).Error; err != nil {
+			panic("harness: seed: " + err.Error())
+		}
+	}
+	for _, j := range sc.joins {
+		if err := d.Exec("INSERT INTO parent_friends (parent_id, child_id) VALUES (?,?)", j[0], j[1]).Error; err != nil {
 			panic("harness: seed: " + err.Error())
 		}
 	}
@@ -721,6 +828,12 @@ type cRow struct {
 	Tag      string
 	Name     string
 	ParentID *uint
+	OwnerID  *uint
+}
+
+type jRow struct {
+	ParentID uint
+	ChildID  uint
 }
 
 type aRow struct {
@@ -735,6 +848,7 @@ type tables struct {
 	P    []pRow
 	C    []cRow
 	I    []iRow
+	J    []jRow
 	A    []aRow
 }
 
@@ -753,7 +867,11 @@ func (t tables) String() string {
 	}
 	b.WriteString(" children:")
 	for _, r := range t.C {
-		fmt.Fprintf(&b, " {%d %s %q parent=%s}", r.ID, r.Tag, r.Name, up(r.ParentID))
+		fmt.Fprintf(&b, " {%d %s %q parent=%s owner=%s}", r.ID, r.Tag, r.Name, up(r.ParentID), up(r.OwnerID))
+	}
+	b.WriteString(" parent_friends:")
+	for _, r := range t.J {
+		fmt.Fprintf(&b, " {%d-%d}", r.ParentID, r.ChildID)
 	}
 	b.WriteString(" items:")
 	for _, r := range t.I {
@@ -784,7 +902,10 @@ func dump(d *testdb.DB, c *Case) (tables, string) {
 	}
 	e6 := d.Raw("SELECT parent_id, line_no, tag, name FROM items ORDER BY parent_id, line_no, tag").Scan(&t.I).Error
 	e1 := d.Raw("SELECT id, tag, name, note, age, " + boss + " FROM " + t.Main + " ORDER BY id").Scan(&t.P).Error
-	e2 := d.Raw("SELECT id, tag, name, parent_id FROM children ORDER BY id").Scan(&t.C).Error
+	e2 := d.Raw("SELECT id, tag, name, parent_id, owner_id FROM children ORDER BY id").Scan(&t.C).Error
+	if e7 := d.Raw("SELECT parent_id, child_id FROM parent_friends ORDER BY parent_id, child_id").Scan(&t.J).Error; e7 != nil {
+		panic("harness: dump: " + e7.Error())
+	}
 	e3 := d.Raw("SELECT name, seq FROM sqlite_sequence ORDER BY name").Scan(&seqs).Error
 	e4 := d.Raw("SELECT id, n, what FROM audits ORDER BY id").Scan(&t.A).Error
 	e5 := d.Raw("SELECT count(*) FROM parents UNION ALL SELECT count(*) FROM flats UNION ALL SELECT count(*) FROM plains").Scan(&others).Error
@@ -807,10 +928,11 @@ type memRec struct {
 
 // memory is what one run hands to gorm.
 type memory struct {
-	arg  interface{}        // the value passed to the finisher / Model
-	recs []memRec           // the top-level in-memory records, in argument order
-	ptrs map[string]uintptr // tag -> address of the in-memory child records (kids, bosses)
-	find func() []memRec    // find / first: the loaded records after the operation
+	arg   interface{}        // the value passed to the finisher / Model
+	recs  []memRec           // the top-level in-memory records, in argument order
+	ptrs  map[string]uintptr // tag -> address of the in-memory child records (kids, bosses)
+	find  func() []memRec    // find / first: the loaded records after the operation
+	model interface{}        // map creates: the Model(..) value
 }
 
 func buildParent(r RecSpec) Parent {
@@ -827,16 +949,40 @@ func buildParent(r RecSpec) Parent {
 	for _, k := range r.Items {
 		p.Items = append(p.Items, Item{Tag: k.Tag, Name: k.Name})
 	}
+	if r.Desk != nil {
+		p.Desk = Child{Tag: r.Desk.Tag, Name: r.Desk.Name}
+	}
+	for _, k := range r.Friends {
+		p.Friends = append(p.Friends, &Child{Tag: k.Tag, Name: k.Name})
+	}
 	return p
 }
 
-func build(c *Case) *memory { return c.kit().build(c) }
+func build(c *Case) *memory {
+	if c.Shape == shMap || c.Shape == shMaps {
+		m := &memory{ptrs: map[string]uintptr{}, model: c.kit().zero()}
+		var maps []map[string]interface{}
+		for _, r := range c.Recs {
+			maps = append(maps, map[string]interface{}{"tag": r.Tag, "name": r.Name, "note": r.Note, "age": r.Age})
+		}
+		if c.Shape == shMap {
+			m.arg = maps[0]
+		} else {
+			m.arg = &maps // by pointer, as gorm's own tests do (by value fails to scan RETURNING ids: not a hook matter)
+		}
+		return m
+	}
+	return c.kit().build(c)
+}
 
 func buildParentMem(c *Case) *memory {
 	m := &memory{ptrs: map[string]uintptr{}}
 	ref := func(p *Parent) memRec { return memRec{Tag: p.Tag, ID: p.ID, Ptr: uintptr(unsafe.Pointer(p))} }
 	n := len(c.Recs)
 	switch c.Op {
+	case opPluck:
+		m.arg = &Parent{}
+		return m
 	case opFind, opFirst:
 		switch c.Shape {
 		case shPtr:
@@ -868,7 +1014,7 @@ func buildParentMem(c *Case) *memory {
 	}
 	var parents []*Parent
 	switch c.Shape {
-	case shPtr, shCond:
+	case shPtr, shCond, shDest:
 		var p *Parent
 		if c.Shape == shCond {
 			p = &Parent{Tag: "cond"}
@@ -889,6 +1035,13 @@ func buildParentMem(c *Case) *memory {
 		} else {
 			m.arg = s
 		}
+	case shPtrArray:
+		arr := &[2]Parent{}
+		for i, r := range c.Recs {
+			arr[i] = buildParent(r)
+			parents = append(parents, &arr[i])
+		}
+		m.arg = arr
 	case shPtrPSlice, shPSlice:
 		s := make([]*Parent, n)
 		for i, r := range c.Recs {
@@ -913,6 +1066,12 @@ func buildParentMem(c *Case) *memory {
 		if p.Mentor != nil {
 			m.ptrs[p.Mentor.Tag] = uintptr(unsafe.Pointer(p.Mentor))
 		}
+		if p.Desk.Tag != "" {
+			m.ptrs[p.Desk.Tag] = uintptr(unsafe.Pointer(&p.Desk))
+		}
+		for _, f := range p.Friends {
+			m.ptrs[f.Tag] = uintptr(unsafe.Pointer(f))
+		}
 		for i := range p.Items {
 			if c.PresetLines {
 				p.Items[i].LineNo = lineOf(p.Items[i].Tag)
@@ -928,35 +1087,107 @@ func (c *Case) exec(db *gorm.DB, m *memory) *gorm.DB {
 	if c.SkipHooks {
 		db = db.Session(&gorm.Session{SkipHooks: true})
 	}
+	if c.SkipDefTx == "session" || c.Prepare == "session" || c.FullSave || c.NoNestedTx {
+		db = db.Session(&gorm.Session{SkipDefaultTransaction: c.SkipDefTx == "session", PrepareStmt: c.Prepare == "session",
+			FullSaveAssociations: c.FullSave, DisableNestedTransaction: c.NoNestedTx})
+	}
 	switch c.Op {
 	case opCreate:
+		switch c.Conflict {
+		case "nothing":
+			db = db.Clauses(clause.OnConflict{DoNothing: true})
+		case "updateall":
+			db = db.Clauses(clause.OnConflict{UpdateAll: true})
+		}
+		if m.model != nil {
+			return db.Model(m.model).Create(m.arg)
+		}
+		if c.BatchVia == "session" {
+			return db.Session(&gorm.Session{CreateBatchSize: c.Batch}).Create(m.arg)
+		}
 		return db.Create(m.arg)
 	case opCreateBatches:
 		return db.CreateInBatches(m.arg, c.Batch)
 	case opSave:
 		return db.Save(m.arg)
-	case opUpdates:
-		return db.Model(m.arg).Updates(c.updateValues())
-	case opUpdate:
-		col, v := c.updateColumn()
-		return db.Model(m.arg).Update(col, v)
-	case opUpdateColumn:
-		col, v := c.updateColumn()
-		return db.Model(m.arg).UpdateColumn(col, v)
-	case opUpdateColumns:
-		return db.Model(m.arg).UpdateColumns(c.updateValues())
+	case opUpdates, opUpdate, opUpdateColumn, opUpdateColumns:
+		if c.Returning {
+			db = db.Clauses(clause.Returning{})
+		}
+		if c.Shape == shDest {
+			if c.Op == opUpdates {
+				return db.Updates(m.arg)
+			}
+			return db.UpdateColumns(m.arg)
+		}
+		tx := db.Model(m.arg)
+		if c.Shape == shCond {
+			if c.CondForm == "pk" {
+				tx = tx.Where(c.IDs)
+			} else {
+				tx = tx.Where("id IN ?", c.IDs)
+			}
+		}
+		switch c.Op {
+		case opUpdates:
+			return tx.Updates(c.updateValues())
+		case opUpdate:
+			col, v := c.updateColumn()
+			return tx.Update(col, v)
+		case opUpdateColumn:
+			col, v := c.updateColumn()
+			return tx.UpdateColumn(col, v)
+		}
+		return tx.UpdateColumns(c.updateValues())
 	case opDelete:
-		if c.DelKids {
-			db = db.Select("Kids")
+		if c.DelSel != "" {
+			db = db.Select(c.DelSel)
+		}
+		if c.Returning {
+			db = db.Clauses(clause.Returning{})
 		}
 		if c.Shape == shCond {
+			switch c.CondForm {
+			case "pk":
+				return db.Delete(m.arg, c.IDs)
+			case "chain":
+				return db.Where("id IN ?", c.IDs).Delete(m.arg)
+			}
 			return db.Delete(m.arg, "id IN ?", c.IDs)
 		}
 		return db.Delete(m.arg)
+	case opPluck:
+		tx := db.Model(m.arg).Where("id IN ?", c.IDs)
+		if c.Via == "count" {
+			var n int64
+			return tx.Count(&n)
+		}
+		var names []string
+		return tx.Pluck("name", &names)
 	case opFind, opFirst:
-		tx := db.Where("id IN ?", c.IDs).Order("id")
+		var tx *gorm.DB
+		if c.Via == "firstorinit" || c.Via == "firstorcreate" {
+			tx = db.Where(map[string]interface{}{"tag": c.CondTag})
+		} else {
+			tx = db.Where("id IN ?", c.IDs)
+		}
+		if (c.Op == opFind && c.Via == "") || c.Via == "take" {
+			tx = tx.Order("id") // First / Last / FindInBatches order by the primary key themselves
+		}
 		for _, p := range c.Preload {
 			tx = tx.Preload(p)
+		}
+		switch c.Via {
+		case "batches":
+			return tx.FindInBatches(m.arg, c.Batch, func(*gorm.DB, int) error { return nil })
+		case "take":
+			return tx.Take(m.arg)
+		case "last":
+			return tx.Last(m.arg)
+		case "firstorinit":
+			return tx.FirstOrInit(m.arg)
+		case "firstorcreate":
+			return tx.FirstOrCreate(m.arg)
 		}
 		if c.Op == opFirst {
 			return tx.First(m.arg)
@@ -1193,7 +1424,8 @@ func runOnce(c *Case, failAt int) (res runResult, problems []string) {
 	cur = rs
 	defer func() { cur = nil }()
 	d.Rec.Reset()
-	if c.InTx {
+	switch c.Tx {
+	case "begin":
 		tx := d.Begin()
 		if tx.Error != nil {
 			panic("harness: begin: " + tx.Error.Error())
@@ -1205,7 +1437,19 @@ func runOnce(c *Case, failAt int) (res runResult, problems []string) {
 		} else if err := tx.Commit().Error; err != nil {
 			panic("harness: commit: " + err.Error())
 		}
-	} else {
+	case "closure":
+		res.Err = d.Transaction(func(tx *gorm.DB) error { return c.exec(tx, m).Error })
+	case "nested":
+		// the caller's outer transaction commits whatever happens; the failed inner block must be
+		// undone by its save point alone
+		outerErr := d.Transaction(func(outer *gorm.DB) error {
+			res.Err = outer.Transaction(func(inner *gorm.DB) error { return c.exec(inner, m).Error })
+			return nil
+		})
+		if outerErr != nil {
+			panic("harness: outer transaction: " + outerErr.Error())
+		}
+	default:
 		res.Err = c.exec(d.DB, m).Error
 	}
 	evs := d.Rec.Events()
@@ -1245,20 +1489,35 @@ func expect(c *Case, m *memory) expectation {
 	sc := materialize(c)
 	k := c.kit()
 	switch c.Op {
+	case opPluck:
+		return ex // no record destination: no hook at all
 	case opFind, opFirst:
 		var loaded []Parent
+		byCond := c.Via == "firstorinit" || c.Via == "firstorcreate"
 		for _, p := range sc.parents {
-			if containsID(c.IDs, p.ID) {
+			if (!byCond && containsID(c.IDs, p.ID)) || (byCond && p.Tag == c.CondTag) {
 				loaded = append(loaded, p)
 			}
 		}
 		if c.Op == opFirst || c.Shape == shPtr {
+			if c.Via == "last" && len(loaded) > 1 {
+				loaded = loaded[len(loaded)-1:]
+			}
 			if len(loaded) > 1 {
 				loaded = loaded[:1]
 			}
 		}
-		if c.Op == opFirst && len(loaded) == 0 {
+		if c.Op == opFirst && len(loaded) == 0 && !byCond {
 			ex.Err = gorm.ErrRecordNotFound
+		}
+		if c.Via == "firstorcreate" && len(loaded) == 0 {
+			// not found: the destination (carrying the condition's value) is created
+			ex.Writes = true
+			if c.hooksRun() {
+				dest := m.find()[0]
+				ex.Wants = append(ex.Wants, want{Tag: c.CondTag, Model: k.name, Kind: "create", Table: k.table, Ptr: dest.Ptr})
+			}
+			return ex
 		}
 		if !c.hooksRun() {
 			return ex
@@ -1280,6 +1539,16 @@ func expect(c *Case, m *memory) expectation {
 							seenBoss[ch.ID] = true
 							ex.Wants = append(ex.Wants, want{Tag: ch.Tag, Model: "Child", Kind: "find", Table: "children", Parent: "*"})
 						}
+					case "Desk":
+						if ch.OwnerID != nil && *ch.OwnerID == p.ID {
+							ex.Wants = append(ex.Wants, want{Tag: ch.Tag, Model: "Child", Kind: "find", Table: "children", Parent: "*"})
+						}
+					case "Friends":
+						for _, j := range sc.joins {
+							if j[0] == p.ID && j[1] == ch.ID {
+								ex.Wants = append(ex.Wants, want{Tag: ch.Tag, Model: "Child", Kind: "find", Table: "children", Parent: "*"})
+							}
+						}
 					}
 				}
 			}
@@ -1287,6 +1556,9 @@ func expect(c *Case, m *memory) expectation {
 		return ex
 	}
 	ex.Writes = true
+	if m.model != nil {
+		return ex // created from maps: no record, no hooks
+	}
 	// empty slices: gorm refuses them
 	if len(m.recs) == 0 {
 		switch c.Op {
@@ -1319,11 +1591,12 @@ func expect(c *Case, m *memory) expectation {
 			w.Kind = "delete"
 		}
 		ex.Wants = append(ex.Wants, w)
-		if c.Op == opDelete && c.DelKids && i == 0 && len(parentKeys(c, m)) > 0 {
+		if c.Op == opDelete && (c.DelSel == "Kids" || c.DelSel == "Desk") && i == 0 && len(parentKeys(c, m)) > 0 {
 			// Select("Kids"): one nested Delete of the children of all given parents, on a model value gorm makes
 			ex.Wants = append(ex.Wants, want{Tag: "", Model: "Child", Kind: "delete", Table: "children", Parent: "*"})
 		}
-		if c.Op == opCreate || c.Op == opCreateBatches || c.Op == opSave {
+		if c.Shape != shCond && c.Op != opDelete {
+			// the association callbacks run in the create and in the update pipeline alike
 			r := c.Recs[i]
 			if r.Boss != nil {
 				ex.Wants = append(ex.Wants, want{Tag: r.Boss.Tag, Model: "Child", Kind: "create", Table: "children", Parent: p.Tag, Ptr: m.ptrs[r.Boss.Tag]})
@@ -1336,6 +1609,12 @@ func expect(c *Case, m *memory) expectation {
 			}
 			for _, kd := range r.Items {
 				ex.Wants = append(ex.Wants, want{Tag: kd.Tag, Model: "Item", Kind: "create", Table: "items", Parent: p.Tag, Ptr: m.ptrs[kd.Tag]})
+			}
+			if r.Desk != nil {
+				ex.Wants = append(ex.Wants, want{Tag: r.Desk.Tag, Model: "Child", Kind: "create", Table: "children", Parent: p.Tag, Ptr: m.ptrs[r.Desk.Tag]})
+			}
+			for _, kd := range r.Friends {
+				ex.Wants = append(ex.Wants, want{Tag: kd.Tag, Model: "Child", Kind: "create", Table: "children", Parent: p.Tag, Ptr: m.ptrs[kd.Tag]})
 			}
 		}
 	}
@@ -1455,6 +1734,23 @@ func checkFaultFree(c *Case, ex expectation, res runResult) []string {
 				n++
 			}
 		}
+		txs := map[int]bool{}
+		for k2, ps := range pos {
+			if k2.Tag == w.Tag && k2.Model == w.Model {
+				for _, p := range ps {
+					txs[log[p].TxID] = true
+				}
+			}
+		}
+		for i := sp.lastBefore + 1; i < sp.firstAfter && i < len(log); i++ {
+			if log[i].Kind == "stmt" && log[i].Verb == verb && log[i].Table == w.Table {
+				txs[log[i].TxID] = true
+				break
+			}
+		}
+		if len(txs) > 1 {
+			bad("the hooks and the statement of record %s did not share one transaction (driver transactions seen: %d different)", w.Tag, len(txs))
+		}
 		if n == 0 && sp.firstAfter <= len(log) {
 			bad("no %s statement on %s between the before-hooks and the after-hooks of record %s", verb, w.Table, w.Tag)
 		}
@@ -1469,6 +1765,9 @@ func checkFaultFree(c *Case, ex expectation, res runResult) []string {
 				continue
 			}
 			for _, p := range ps {
+				if w.Parent == "*" && c.Via == "batches" {
+					continue // every batch is a query of its own: its preloads follow the earlier batches' AfterFind
+				}
 				if w.Parent == "*" {
 					// preloaded children / nested delete: inside the window of every top-level record
 					for _, pw := range ex.Wants {
@@ -1508,24 +1807,26 @@ func checkFaultFree(c *Case, ex expectation, res runResult) []string {
 func checkTx(c *Case, ex expectation, res runResult, faulted bool) []string {
 	var v []string
 	bad := func(format string, a ...interface{}) { v = append(v, fmt.Sprintf(format, a...)) }
-	// the operation's transaction: the one its statements ran in / the one it opened
-	opTx, have := 0, false
-	for _, e := range res.Log {
-		if e.Kind == "stmt" {
-			opTx, have = e.TxID, true
-			break
-		}
-	}
-	if !have {
-		for _, e := range res.Log {
-			if e.Kind == "commit" || e.Kind == "rollback" {
-				opTx, have = e.TxID, true
-				break
+	// the driver transaction open at each point of the log (0: none). A begin event is logged
+	// before its number is assigned: the number is that of the commit/rollback closing it.
+	open := make([]int, len(res.Log))
+	curTx := 0
+	for i, e := range res.Log {
+		switch e.Kind {
+		case "begin":
+			for j := i + 1; j < len(res.Log); j++ {
+				if res.Log[j].Kind == "commit" || res.Log[j].Kind == "rollback" {
+					curTx = res.Log[j].TxID
+					break
+				}
 			}
+			open[i] = curTx
+		case "commit", "rollback":
+			open[i] = curTx
+			curTx = 0
+		default:
+			open[i] = curTx
 		}
-	}
-	if !have {
-		opTx = 0
 	}
 	hooksFired := false
 	for _, e := range res.Log {
@@ -1533,17 +1834,25 @@ func checkTx(c *Case, ex expectation, res runResult, faulted bool) []string {
 			hooksFired = true
 		}
 	}
-	// a lone statement without hooks is atomic by itself; once hooks take part the operation needs a transaction of its own
-	if ex.Writes && have && opTx == 0 && ex.Err == nil && hooksFired {
-		bad("hooks took part in the write but it ran outside any transaction (nothing could be rolled back)")
-	}
-	for _, e := range res.Log {
-		if e.Kind == "audit" && e.TxID != opTx {
-			bad("a row written through a hook's handle went to driver transaction %d, the operation ran in %d", e.TxID, opTx)
-		}
-		if e.Kind == "hook" && e.TxID != opTx {
-			bad("%s.%s(%s) was given a handle outside the operation's transaction: its statement ran in driver transaction %d (connection %d), the operation in %d",
-				e.Inv.Model, e.Inv.Hook, e.Inv.Tag, e.TxID, e.Conn, opTx)
+	for i, e := range res.Log {
+		switch e.Kind {
+		case "audit":
+			if e.TxID != open[i] {
+				bad("a row written through a hook's handle went to driver transaction %d (connection %d) while the operation's transaction was %d", e.TxID, e.Conn, open[i])
+			}
+		case "hook":
+			if e.TxID != open[i] {
+				bad("%s.%s(%s) was given a handle outside the operation's transaction: its statement ran in driver transaction %d (connection %d), the operation's transaction at that point was %d",
+					e.Inv.Model, e.Inv.Hook, e.Inv.Tag, e.TxID, e.Conn, open[i])
+			}
+		case "stmt":
+			if e.TxID != open[i] {
+				bad("%s ran in driver transaction %d while the operation's transaction was %d", e, e.TxID, open[i])
+			}
+			// a lone statement without hooks is atomic by itself; once hooks take part the operation needs a transaction of its own
+			if e.Verb != "SELECT" && e.TxID == 0 && ex.Writes && ex.Err == nil && hooksFired && c.SkipDefTx == "" {
+				bad("hooks took part in the write but it ran outside any transaction (nothing could be rolled back): %s", e)
+			}
 		}
 	}
 	return v
@@ -1558,7 +1867,7 @@ func checkFaulted(c *Case, ex expectation, base, res runResult, h int) []string 
 	} else if !errors.Is(res.Err, errHook) {
 		bad("the operation returned %q, which does not wrap the hook's error", res.Err)
 	}
-	if res.Before != res.After {
+	if c.rollsBack() && res.Before != res.After {
 		bad("the database changed although the operation failed:\n   before: %s\n   after:  %s", res.Before, res.After)
 	}
 	// locate the failing invocation in both logs
@@ -1614,7 +1923,7 @@ func checkFaulted(c *Case, ex expectation, base, res runResult, h int) []string 
 				bad("a hook of a later phase fired after %s.%s(%s) failed: %s", failed.Model, failed.Hook, failed.Tag, e)
 			}
 		case "commit":
-			if !c.InTx {
+			if !c.inTx() && c.rollsBack() {
 				bad("the operation committed after %s.%s(%s) failed", failed.Model, failed.Hook, failed.Tag)
 			}
 		}
@@ -1654,6 +1963,13 @@ func checkStored(c *Case, ex expectation, res runResult) []string {
 	case opCreate, opCreateBatches, opSave:
 		newRows := 0
 		for _, r := range c.Recs {
+			if c.Conflict == "nothing" && r.ID != 0 && seedHas(sc, r.ID) {
+				// ON CONFLICT DO NOTHING: the row stays what it was
+				if row := pByID[r.ID]; row.Tag != fmt.Sprintf("s%d", r.ID) || row.Note != "seed" {
+					bad("row %d was changed by a create with OnConflict{DoNothing}: %v", r.ID, row)
+				}
+				continue
+			}
 			rows := pByTag[r.Tag]
 			if len(rows) != 1 {
 				bad("record %s is stored %d times", r.Tag, len(rows))
@@ -1687,6 +2003,10 @@ func checkStored(c *Case, ex expectation, res runResult) []string {
 			if r.Mentor != nil {
 				kids = append(kids, *r.Mentor)
 			}
+			if r.Desk != nil {
+				kids = append(kids, *r.Desk)
+			}
+			kids = append(kids, r.Friends...)
 			for _, k := range r.Items {
 				var irows []iRow
 				for _, ir := range t.I {
@@ -1730,6 +2050,20 @@ func checkStored(c *Case, ex expectation, res runResult) []string {
 					if row.MentorID == nil || *row.MentorID != crows[0].ID {
 						bad("record %s does not reference its mentor row %d", r.Tag, crows[0].ID)
 					}
+				} else if r.Desk != nil && k.Tag == r.Desk.Tag {
+					if crows[0].OwnerID == nil || *crows[0].OwnerID != row.ID {
+						bad("has-one record %s does not reference its owner row %d", k.Tag, row.ID)
+					}
+				} else if strings.Contains(k.Tag, ".f") {
+					linked := false
+					for _, j := range t.J {
+						if j.ParentID == row.ID && j.ChildID == crows[0].ID {
+							linked = true
+						}
+					}
+					if !linked {
+						bad("many2many record %s is not linked to row %d in parent_friends", k.Tag, row.ID)
+					}
 				} else if crows[0].ParentID == nil || *crows[0].ParentID != row.ID {
 					bad("child record %s does not reference its parent row %d", k.Tag, row.ID)
 				}
@@ -1750,6 +2084,9 @@ func checkStored(c *Case, ex expectation, res runResult) []string {
 				if r.ID == sp.ID {
 					target = true
 				}
+			}
+			if c.Shape == shCond {
+				target = containsID(c.IDs, sp.ID)
 			}
 			wantNote, wantName := sp.Note, sp.Name
 			if target {
@@ -1799,17 +2136,47 @@ func checkStored(c *Case, ex expectation, res runResult) []string {
 			left[r.ID] = true
 		}
 		for _, ch := range sc.children {
-			dead := c.DelKids && ch.ParentID != nil && gone[*ch.ParentID] && c.Shape != shCond
+			dead := c.Shape != shCond && ((c.DelSel == "Kids" && ch.ParentID != nil && gone[*ch.ParentID]) ||
+				(c.DelSel == "Desk" && ch.OwnerID != nil && gone[*ch.OwnerID]))
 			if dead && left[ch.ID] {
-				bad("child row %d of a deleted parent survived Select(\"Kids\")", ch.ID)
+				bad("child row %d of a deleted parent survived Select(%q)", ch.ID, c.DelSel)
 			}
 			if !dead && !left[ch.ID] {
 				bad("child row %d was deleted", ch.ID)
 			}
 		}
-	case opFind, opFirst:
+		for _, j := range sc.joins {
+			dead := c.DelSel == "Friends" && gone[j[0]] && c.Shape != shCond
+			have := false
+			for _, r := range t.J {
+				if r.ParentID == j[0] && r.ChildID == j[1] {
+					have = true
+				}
+			}
+			if dead && have {
+				bad("the many2many link %d-%d of a deleted parent survived Select(\"Friends\")", j[0], j[1])
+			}
+			if !dead && !have {
+				bad("the many2many link %d-%d was deleted", j[0], j[1])
+			}
+		}
+	case opPluck:
 		if res.Before != res.After {
 			bad("a query changed the database")
+		}
+	case opFind, opFirst:
+		if c.Via == "firstorcreate" && ex.Writes {
+			if n := len(pByTag[c.CondTag]); n != 1 {
+				bad("FirstOrCreate found no row tagged %s but %d such rows are stored afterwards", c.CondTag, n)
+			}
+			if len(t.P) != len(sc.parents)+1 {
+				bad("the table holds %d rows, expected %d", len(t.P), len(sc.parents)+1)
+			}
+		} else if res.Before != res.After {
+			bad("a query changed the database")
+		}
+		if c.Via == "batches" || (c.Via == "firstorinit" && len(ex.Wants) == 0) {
+			return v // the destination holds the last batch only / an initialised, not loaded, record
 		}
 		// the loaded records are the records the hooks were called on
 		var wantTags []string
@@ -1880,6 +2247,12 @@ func caseClasses(c *Case) []string {
 		if len(r.Items) > 0 && len(r.Kids) > 0 {
 			cl = append(cl, "children:two-has-many")
 		}
+		if r.Desk != nil {
+			cl = append(cl, "children:has-one")
+		}
+		if len(r.Friends) > 0 {
+			cl = append(cl, "children:many2many")
+		}
 		if len(r.Kids) > 0 {
 			kids = true
 		}
@@ -1899,14 +2272,51 @@ func caseClasses(c *Case) []string {
 	if c.SkipHooks {
 		cl = append(cl, "skiphooks")
 	}
-	if c.DelKids {
-		cl = append(cl, "children:nested-delete")
+	if c.DelSel != "" {
+		cl = append(cl, "children:nested-delete:"+c.DelSel)
+	}
+	if c.Via != "" {
+		cl = append(cl, "via:"+c.Via)
+	}
+	if c.CondForm != "" {
+		cl = append(cl, "cond-form:"+c.CondForm)
+	}
+	if c.Returning {
+		cl = append(cl, "clause:returning")
+	}
+	if c.Conflict != "" {
+		cl = append(cl, "clause:on-conflict-"+c.Conflict)
+	}
+	if c.isUpdateOp() {
+		for _, r := range c.Recs {
+			if r.Boss != nil || r.Mentor != nil || r.Desk != nil || len(r.Kids)+len(r.Items)+len(r.Friends) > 0 {
+				cl = append(cl, "children:saved-by-update")
+			}
+		}
 	}
 	if c.CallerName != "" {
 		cl = append(cl, "caller-sets-name:"+c.CallerName)
 	}
-	if c.InTx {
-		cl = append(cl, "in-caller-tx")
+	if c.Tx != "" {
+		cl = append(cl, "in-caller-tx:"+c.Tx)
+	}
+	if c.SkipDefTx != "" {
+		cl = append(cl, "skip-default-transaction@"+c.SkipDefTx)
+	}
+	if c.Prepare != "" {
+		cl = append(cl, "prepare-stmt@"+c.Prepare)
+	}
+	if c.NoReturning {
+		cl = append(cl, "dialector:no-returning")
+	}
+	if c.BatchVia != "" {
+		cl = append(cl, "create-batch-size-session")
+	}
+	if c.FullSave {
+		cl = append(cl, "full-save-associations")
+	}
+	if c.NoNestedTx {
+		cl = append(cl, "disable-nested-transaction")
 	}
 	if c.Set != "" {
 		cl = append(cl, "set:"+c.Set+"@"+c.SetIn)
@@ -1994,20 +2404,46 @@ func bucket(n int) string {
 
 // ---- generator ----------------------------------------------------------------------------------
 
-var enabledOps = []string{opCreate, opCreate, opCreateBatches, opSave, opSave, opUpdates, opUpdate, opUpdateColumn, opUpdateColumns, opDelete, opDelete, opFind, opFind, opFirst}
+var enabledOps = []string{opCreate, opCreate, opCreate, opCreateBatches, opSave, opSave, opUpdates, opUpdates, opUpdate, opUpdateColumn, opUpdateColumns, opDelete, opDelete, opFind, opFind, opFirst, opFirst, opPluck}
 
-func drawKids(t *rapid.T, tag string, rich, withBoss bool) (boss *KidSpec, kids []KidSpec) {
-	if !rich {
-		return nil, nil
+// maxRecords: argument lengths 0..5 in the quick tier, 0..8 in the thorough tier.
+func maxRecords() int {
+	if harness.Thorough() {
+		return 8
 	}
-	if withBoss && rapid.IntRange(0, 2).Draw(t, tag+".boss") == 0 {
-		boss = &KidSpec{Tag: tag + ".boss", Name: "b-" + tag}
+	return 5
+}
+
+// drawChildren gives a record new associated records (each with its own hooks), as far as the model has the relations.
+func drawChildren(t *rapid.T, r *RecSpec, rich bool, k *kit) {
+	if !rich || !k.hasKids {
+		return
+	}
+	tag := r.Tag
+	if k.hasBoss && rapid.IntRange(0, 2).Draw(t, tag+".boss") == 0 {
+		r.Boss = &KidSpec{Tag: tag + ".boss", Name: "b-" + tag}
 	}
 	n := rapid.SampledFrom([]int{0, 0, 1, 2}).Draw(t, tag+".kids")
-	for k := 0; k < n; k++ {
-		kids = append(kids, KidSpec{Tag: fmt.Sprintf("%s.k%d", tag, k), Name: fmt.Sprintf("k%d-%s", k, tag)})
+	for j := 0; j < n; j++ {
+		r.Kids = append(r.Kids, KidSpec{Tag: fmt.Sprintf("%s.k%d", tag, j), Name: fmt.Sprintf("k%d-%s", j, tag)})
 	}
-	return
+	if !k.hasBoss {
+		return
+	}
+	if rapid.IntRange(0, 2).Draw(t, tag+".mentor") == 0 {
+		r.Mentor = &KidSpec{Tag: tag + ".mentor", Name: "m-" + tag}
+	}
+	ni := rapid.SampledFrom([]int{0, 0, 1, 2, 3}).Draw(t, tag+".items")
+	for j := 0; j < ni; j++ {
+		r.Items = append(r.Items, KidSpec{Tag: fmt.Sprintf("%s.i%d", tag, j), Name: fmt.Sprintf("i%d-%s", j, tag)})
+	}
+	if rapid.IntRange(0, 2).Draw(t, tag+".desk") == 0 {
+		r.Desk = &KidSpec{Tag: tag + ".desk", Name: "d-" + tag}
+	}
+	nf := rapid.SampledFrom([]int{0, 0, 1, 2}).Draw(t, tag+".friends")
+	for j := 0; j < nf; j++ {
+		r.Friends = append(r.Friends, KidSpec{Tag: fmt.Sprintf("%s.f%d", tag, j), Name: fmt.Sprintf("f%d-%s", j, tag)})
+	}
 }
 
 func drawCase(t *rapid.T) *Case {
@@ -2026,7 +2462,7 @@ func drawCase(t *rapid.T) *Case {
 	case opUpdates, opUpdate, opUpdateColumn, opUpdateColumns, opDelete:
 		needSeed = 1
 	}
-	nSeed := rapid.IntRange(needSeed, 5).Draw(t, "seed-rows")
+	nSeed := rapid.IntRange(needSeed, maxRecords()).Draw(t, "seed-rows")
 	for i := 1; i <= nSeed; i++ {
 		row := SeedRow{ID: uint(i)}
 		if k.hasBoss {
@@ -2035,11 +2471,18 @@ func drawCase(t *rapid.T) *Case {
 		if k.hasKids {
 			row.Kids = rapid.SampledFrom([]int{0, 1, 2}).Draw(t, "seed.kids")
 		}
+		if k.hasBoss {
+			row.Desk = rapid.IntRange(0, 2).Draw(t, "seed.desk") == 0
+			row.Friends = rapid.SampledFrom([]int{0, 0, 1, 2}).Draw(t, "seed.friends")
+		}
 		c.Seed = append(c.Seed, row)
 	}
 	c.Probe = rapid.SampledFrom([]string{"exec", "raw"}).Draw(t, "probe")
 	c.SkipHooks = rapid.IntRange(0, 5).Draw(t, "skiphooks") == 0
-	c.InTx = rapid.IntRange(0, 3).Draw(t, "in-caller-tx") == 0
+	c.Tx = rapid.SampledFrom([]string{"", "", "", "", "", "begin", "closure", "nested"}).Draw(t, "caller-tx")
+	c.SkipDefTx = rapid.SampledFrom([]string{"", "", "", "", "", "", "session", "config"}).Draw(t, "skip-default-tx")
+	c.Prepare = rapid.SampledFrom([]string{"", "", "", "", "", "", "session", "config"}).Draw(t, "prepare-stmt")
+	c.NoReturning = rapid.IntRange(0, 4).Draw(t, "no-returning") == 0
 	names := []string{"ann", "bob", "", "o'neil"}
 
 	// existing keys in a generated order without repetition
@@ -2060,24 +2503,46 @@ func drawCase(t *rapid.T) *Case {
 		shapes := []string{shPtr, shPtrSlice, shPtrPSlice, shSlice, shPSlice}
 		if c.Op == opCreateBatches {
 			shapes = shapes[1:]
+		} else {
+			shapes = append(shapes, shPtrArray)
+		}
+		if c.Op == opCreate {
+			shapes = append(shapes, shMap, shMaps)
 		}
 		c.Shape = rapid.SampledFrom(shapes).Draw(t, "shape")
 		n := 1
-		if c.Shape != shPtr {
-			n = rapid.IntRange(0, 5).Draw(t, "records")
+		switch c.Shape {
+		case shPtr, shMap:
+		case shPtrArray:
+			n = 2
+		case shMaps:
+			n = rapid.IntRange(1, 3).Draw(t, "records")
+		default:
+			n = rapid.IntRange(0, maxRecords()).Draw(t, "records")
 			if c.Op == opCreateBatches && n == 0 {
 				n = 1
 			}
 		}
-		rich := rapid.IntRange(0, 2).Draw(t, "with-children") == 0
+		isMap := c.Shape == shMap || c.Shape == shMaps
+		rich := !isMap && rapid.IntRange(0, 2).Draw(t, "with-children") == 0
 		var existing []uint
 		if c.Op == opSave {
 			existing = rapid.Permutation(seedIDs(nSeed)).Draw(t, "save.ids")
 		}
+		if c.Op == opCreate && !rich && !isMap {
+			// an upsert clause: records may then carry keys that exist
+			c.Conflict = rapid.SampledFrom([]string{"", "", "", "nothing", "updateall"}).Draw(t, "on-conflict")
+			if c.Conflict != "" {
+				existing = rapid.Permutation(seedIDs(nSeed)).Draw(t, "conflict.ids")
+			}
+		}
 		for i := 0; i < n; i++ {
 			tag := fmt.Sprintf("r%d", i)
 			r := RecSpec{Tag: tag, Name: rapid.SampledFrom(names).Draw(t, tag+".name"), Note: "n-" + tag, Age: rapid.IntRange(0, 3).Draw(t, tag+".age")}
-			if c.Op == opSave {
+			// without RETURNING gorm back-fills batch keys by counting from LastInsertId, which a batch mixing
+			// preset and zero keys defeats (a key back-fill matter, not a hook matter): such batches stay all-new
+			mixedOK := !c.NoReturning || n == 1
+			if (c.Op == opSave || c.Conflict != "") && mixedOK {
 				switch rapid.SampledFrom([]string{"new", "existing", "existing", "missing"}).Draw(t, tag+".target") {
 				case "existing":
 					if len(existing) > 0 {
@@ -2087,65 +2552,121 @@ func drawCase(t *rapid.T) *Case {
 					r.ID = uint(900 + i)
 				}
 			}
-			r.Boss, r.Kids = drawKids(t, tag, rich && k.hasKids, k.hasBoss)
-			if rich && isParent {
-				if rapid.IntRange(0, 2).Draw(t, tag+".mentor") == 0 {
-					r.Mentor = &KidSpec{Tag: tag + ".mentor", Name: "m-" + tag}
-				}
-				ni := rapid.SampledFrom([]int{0, 0, 1, 2, 3}).Draw(t, tag+".items")
-				for j := 0; j < ni; j++ {
-					r.Items = append(r.Items, KidSpec{Tag: fmt.Sprintf("%s.i%d", tag, j), Name: fmt.Sprintf("i%d-%s", j, tag)})
-				}
-			}
+			drawChildren(t, &r, rich, k)
 			c.Recs = append(c.Recs, r)
 		}
 		if c.Op == opCreateBatches {
 			c.Batch = rapid.IntRange(1, n+1).Draw(t, "batch")
 		}
-		if isParent {
+		if c.Op == opCreate && c.Shape != shPtr && c.Shape != shPtrArray && !isMap && n >= 1 && rapid.IntRange(0, 3).Draw(t, "batch-via-session") == 0 {
+			c.BatchVia = "session"
+			c.Batch = rapid.IntRange(1, n+1).Draw(t, "batch")
+		}
+		if rich {
+			c.FullSave = rapid.IntRange(0, 3).Draw(t, "full-save") == 0
+		}
+		if c.Tx != "" && (c.Op == opCreateBatches || c.BatchVia != "") {
+			c.NoNestedTx = rapid.Bool().Draw(t, "disable-nested-tx")
+		}
+		if isParent && !isMap {
 			c.Set = rapid.SampledFrom([]string{"", "", "direct", "setcolumn"}).Draw(t, "set")
 		}
 	case opUpdates, opUpdate, opUpdateColumn, opUpdateColumns:
-		c.Shape = rapid.SampledFrom([]string{shPtr, shPtr, shPtrSlice, shPtrPSlice}).Draw(t, "shape")
-		var ids []uint
-		if c.Shape == shPtr {
-			ids = pickExisting("target", 1, 1)
-		} else {
-			ids = pickExisting("target", 0, 5)
+		shapes := []string{shPtr, shPtr, shPtrSlice, shPtrPSlice, shCond}
+		if nSeed >= 2 {
+			shapes = append(shapes, shPtrArray)
 		}
+		if c.Op == opUpdates || c.Op == opUpdateColumns {
+			shapes = append(shapes, shDest)
+		}
+		c.Shape = rapid.SampledFrom(shapes).Draw(t, "shape")
+		c.NewNote = "new-" + rapid.SampledFrom([]string{"x", "y"}).Draw(t, "note")
+		var ids []uint
+		switch c.Shape {
+		case shPtr, shDest:
+			ids = pickExisting("target", 1, 1)
+			c.Returning = c.Shape == shPtr && rapid.IntRange(0, 3).Draw(t, "returning") == 0
+		case shPtrArray:
+			ids = pickExisting("target", 2, 2)
+		case shCond:
+			c.IDs = pickExisting("target", 0, maxRecords())
+			if c.IDs == nil {
+				c.IDs = []uint{}
+			}
+			c.CondForm = "where"
+			if len(c.IDs) > 0 && rapid.Bool().Draw(t, "cond-pk") {
+				c.CondForm = "pk"
+			}
+		default:
+			ids = pickExisting("target", 0, maxRecords())
+		}
+		richUpd := isParent && c.Shape != shCond && c.Shape != shDest && !c.Returning && rapid.IntRange(0, 3).Draw(t, "with-children") == 0
 		for i, id := range ids {
-			c.Recs = append(c.Recs, RecSpec{Tag: fmt.Sprintf("r%d", i), ID: id})
+			r := RecSpec{Tag: fmt.Sprintf("r%d", i), ID: id}
+			if c.Returning || c.Shape == shDest {
+				r.Tag = fmt.Sprintf("s%d", id) // the row's own tag: RETURNING loads it into the record, db.Updates(&rec) writes it
+			}
+			if c.Shape == shDest {
+				r.Note, r.Age = c.NewNote, 77
+			}
+			drawChildren(t, &r, richUpd, k)
+			c.Recs = append(c.Recs, r)
 		}
 		if c.Op == opUpdates || c.Op == opUpdateColumns {
 			c.Form = rapid.SampledFrom([]string{"struct", "map"}).Draw(t, "form")
+			if c.Shape == shDest {
+				c.Form = "struct"
+			}
 		}
-		c.NewNote = "new-" + rapid.SampledFrom([]string{"x", "y"}).Draw(t, "note")
 		// a before-hook changes what an update stores only through SetColumn (documented)
 		if isParent {
 			c.Set = rapid.SampledFrom([]string{"", "setcolumn"}).Draw(t, "set")
 			// the caller may write the same column the hook sets, naming it by field or by column
-			c.CallerName = rapid.SampledFrom([]string{"", "", "field", "column"}).Draw(t, "caller-name")
+			if c.Shape != shDest {
+				c.CallerName = rapid.SampledFrom([]string{"", "", "field", "column"}).Draw(t, "caller-name")
+			}
 		}
 	case opDelete:
-		c.Shape = rapid.SampledFrom([]string{shPtr, shPtrSlice, shPtrPSlice, shSlice, shPSlice, shCond}).Draw(t, "shape")
+		dshapes := []string{shPtr, shPtrSlice, shPtrPSlice, shSlice, shPSlice, shCond}
+		if nSeed >= 2 {
+			dshapes = append(dshapes, shPtrArray)
+		}
+		c.Shape = rapid.SampledFrom(dshapes).Draw(t, "shape")
 		switch c.Shape {
 		case shPtr:
 			c.IDs = nil
+			c.Returning = rapid.IntRange(0, 3).Draw(t, "returning") == 0
 			for i, id := range pickExisting("target", 1, 1) {
+				r := RecSpec{Tag: fmt.Sprintf("r%d", i), ID: id}
+				if c.Returning {
+					r.Tag = fmt.Sprintf("s%d", id) // RETURNING loads the deleted row into the record
+				}
+				c.Recs = append(c.Recs, r)
+			}
+		case shPtrArray:
+			for i, id := range pickExisting("target", 2, 2) {
 				c.Recs = append(c.Recs, RecSpec{Tag: fmt.Sprintf("r%d", i), ID: id})
 			}
 		case shCond:
-			c.IDs = pickExisting("target", 0, 5)
+			c.IDs = pickExisting("target", 0, maxRecords())
 			if c.IDs == nil {
 				c.IDs = []uint{}
 			}
+			c.CondForm = rapid.SampledFrom([]string{"where", "chain", "pk"}).Draw(t, "cond-form")
+			if len(c.IDs) == 0 && c.CondForm == "pk" {
+				c.CondForm = "where"
+			}
 		default:
-			for i, id := range pickExisting("target", 0, 5) {
+			for i, id := range pickExisting("target", 0, maxRecords()) {
 				c.Recs = append(c.Recs, RecSpec{Tag: fmt.Sprintf("r%d", i), ID: id})
 			}
 		}
 		if c.Shape != shCond && k.hasKids {
-			c.DelKids = rapid.IntRange(0, 2).Draw(t, "select-kids") == 0
+			sel := []string{"", "", "", "Kids", "Kids"}
+			if k.hasBoss {
+				sel = append(sel, "Desk", "Friends")
+			}
+			c.DelSel = rapid.SampledFrom(sel).Draw(t, "select-association")
 		}
 	case opFind, opFirst:
 		if c.Op == opFirst {
@@ -2153,12 +2674,26 @@ func drawCase(t *rapid.T) *Case {
 		} else {
 			c.Shape = rapid.SampledFrom([]string{shPtrSlice, shPtrPSlice, shPtr}).Draw(t, "shape")
 		}
-		c.IDs = pickExisting("target", 0, 5)
+		c.IDs = pickExisting("target", 0, maxRecords())
 		sort.Slice(c.IDs, func(i, j int) bool { return c.IDs[i] < c.IDs[j] })
 		if c.IDs == nil {
 			c.IDs = []uint{}
 		}
-		if k.hasKids {
+		if c.Op == opFind && c.Shape != shPtr && rapid.IntRange(0, 3).Draw(t, "in-batches") == 0 {
+			c.Via = "batches"
+			c.Batch = rapid.IntRange(1, 3).Draw(t, "batch")
+		}
+		if c.Op == opFirst {
+			c.Via = rapid.SampledFrom([]string{"", "", "take", "last", "firstorinit", "firstorcreate", "firstorcreate"}).Draw(t, "finder")
+			if c.Via == "firstorinit" || c.Via == "firstorcreate" {
+				c.IDs = []uint{}
+				c.CondTag = "fresh"
+				if nSeed > 0 && rapid.Bool().Draw(t, "cond-existing") {
+					c.CondTag = fmt.Sprintf("s%d", rapid.IntRange(1, nSeed).Draw(t, "cond-id"))
+				}
+			}
+		}
+		if k.hasKids && c.CondTag == "" {
 			switch rapid.IntRange(0, 5).Draw(t, "preload") {
 			case 0:
 				c.Preload = []string{"Kids"}
@@ -2170,11 +2705,22 @@ func drawCase(t *rapid.T) *Case {
 				if k.hasBoss {
 					c.Preload = []string{"Boss", "Kids"}
 				}
+			case 3:
+				if k.hasBoss {
+					c.Preload = rapid.SampledFrom([][]string{{"Desk"}, {"Friends"}, {"Desk", "Friends"}, {"Boss", "Desk", "Friends", "Kids"}}).Draw(t, "preload-more")
+				}
 			}
 		}
 	}
+	if c.Op == opPluck {
+		c.Via = rapid.SampledFrom([]string{"pluck", "count"}).Draw(t, "via")
+		c.IDs = pickExisting("target", 0, maxRecords())
+		if c.IDs == nil {
+			c.IDs = []uint{}
+		}
+	}
 	switch c.Op {
-	case opFind, opFirst:
+	case opFind, opFirst, opPluck:
 	default:
 		// hooks of a write also write a side row through their handle (must be rolled back with the rest)
 		c.Audit = rapid.IntRange(0, 2).Draw(t, "audit") == 0
